@@ -144,3 +144,16 @@ claim("C02", "proof",
       "doubly-nonlinear dimension law over 2 symbolic positions; mixed-base exponents in [-40,40].",
       "symbolic execution of real operators on shadow instances + z3 key-term equality (LIA/NIA)",
       "DESIGN.md 4/C02", "internmodel")
+
+claim("C11", "other",
+      "Key level: both sides of 9 prefix/unit identities ((p*u)**n = p**n*u**n, u/(p*v) carries p**-1, "
+      "root inverts **, identity prefix neutral, ...) are evaluated by the REAL operators on shadow operands "
+      "with unbounded symbolic exponents and z3 proves the intern keys equal; same-base prefix product/"
+      "quotient/power is proved to be exact integer exponent arithmetic. Value level: the real unprefixed / "
+      "in_unit / ** / '/' / == run on a symbolic magnitude for every registered SI and IEC prefix and a "
+      "family of their products, quotients, powers and roots on core and compound units; z3 decides for ALL "
+      "m that the result is m times the exact prefix factor (1e-12; 1e-9 for SI x IEC mixes).",
+      "value(p) = base**exponent as exact rational; prefix powers beyond double range skipped and counted; "
+      "exact == only demanded for integer-exponent (same-base) combined prefixes.",
+      "symbolic execution on shadow instances (keys) and on proxies (values) + z3", "DESIGN.md 4/C11",
+      "internmodel")
